@@ -54,6 +54,7 @@ PLAN = {
 
 SERVER_IP = "10.0.0.2"
 NAME_MODE_P = 0.0  # set by checks.c03 (variant asyncio_name)
+AMPLIFICATION_MODE = [False]  # set by checks.c13 (variant asyncio_server)
 SERVER_PORT = 4433
 SERVER_ADDR = (SERVER_IP, SERVER_PORT)
 
@@ -349,9 +350,11 @@ class Harness:
         self.server_closed = False
         self.server_protos = []
         self.clients = [ClientState(i, p) for i, p in enumerate(self.plans)]
+        self.client_addrs = {("10.0.0.1", 40001 + i) for i in range(len(self.plans))}
         self.waiters = []
         self.aux_tasks = []
         self.tokens = {}  # address -> set of Retry tokens the server sent there
+        self.amp_recv, self.amp_sent = {}, {}
         self.violation = None
         self.bytes_echoed = 0
         self.ops_log = []
@@ -386,6 +389,16 @@ class Harness:
     def on_sendto(self, transport, data, dst):
         if transport is not self.server_transport:
             return
+        # anti-amplification as the network sees it, for addresses no client of this run owns (nothing ever
+        # validates them): what the server sends there never exceeds three times what arrived from there
+        if dst not in self.client_addrs:
+            self.amp_sent[dst] = self.amp_sent.get(dst, 0) + len(data)
+            if AMPLIFICATION_MODE[0] and self.amp_sent[dst] > 3 * self.amp_recv.get(dst, 0):
+                self.flag(Violation("c19.amplification", "more-than-3x-to-spoofed-address",
+                                    "t=%.6f: the server has sent %d bytes to %s:%d, an address from which only %d bytes "
+                                    "arrived and which nobody validated" % (
+                                        self.loop.time(), self.amp_sent[dst], dst[0], dst[1],
+                                        self.amp_recv.get(dst, 0))))
         from wire.header import parse_datagram
 
         pkts, _ = parse_datagram(data, 0)
@@ -414,9 +427,20 @@ class Harness:
             return cfg["p_spoof_other"], None
         if ini.token:
             return cfg["p_spoof_token"], "token_replay_attempted"
+        if AMPLIFICATION_MODE[0]:
+            # (checks.c13, variant asyncio_server) half of the spoofed token-less Initials are cut short
+            def cut(ch, data):
+                if ch.choose(2):
+                    return data
+                self.probes["spoofed_initial_undersized"] += 1
+                return data[:(60, 80, 98, 150, 400, 1199)[ch.choose(6)]]
+
+            return max(cfg["p_spoof_initial"], 0.5), None, cut
         return cfg["p_spoof_initial"], None
 
     def on_deliver(self, transport, d):
+        if transport is self.server_transport:
+            self.amp_recv[d.src] = self.amp_recv.get(d.src, 0) + len(d.data)
         if transport is not self.server_transport or not d.spoofed or self.server is None:
             return
         ini = self._initial_of(d.data)
